@@ -12,7 +12,8 @@
     and the abstract specification (the documented per-order lifecycle) it refines to.
 
     Decimals are integers at scale 1e-8 (only [-] and the zero test are used), exchange
-    timestamps are integer milliseconds, client order ids / order ids / strategy ids are
+    timestamps are exact integers: nanoseconds since the Unix epoch (chrono's
+    resolution; the model only compares them), client order ids / order ids / strategy ids are
     integers (the harness names them "c<n>", "o<n>", "s<n>").
     Definitions only: this file still runs when a proof breaks. *)
 From Coq Require Export List ZArith Bool.
